@@ -1,17 +1,16 @@
 use crate::parser::pair::GenericPair;
 use crate::parser::*;
 use crate::values::*;
-use crate::{environment::*, interpreter::*};
+use crate::interpreter::*;
 use crate::{error::ErrorData, error::ToLocated};
 
 #[cfg(test)]
 use std::f32::consts::PI;
-use std::rc::Rc;
 
+// returns the procedure and its spread arguments: the evaluator's trampoline makes the call
 fn apply<R: RealNumberInternalTrait>(
     arguments: impl IntoIterator<Item = Value<R>>,
-    env: Rc<Environment<R>>,
-) -> Result<Value<R>> {
+) -> Result<(Procedure<R>, ArgVec<R>)> {
     let mut iter = arguments.into_iter();
     let proc = iter.next().unwrap().expect_procedure()?;
     let mut args = iter.collect::<ArgVec<R>>();
@@ -24,7 +23,7 @@ fn apply<R: RealNumberInternalTrait>(
         };
         args.extend(extended);
     }
-    Interpreter::apply_procedure(&proc, args, &env)
+    Ok((proc, args))
 }
 
 fn car<R: RealNumberInternalTrait>(
@@ -730,10 +729,13 @@ pub fn library_map<R: RealNumberInternalTrait>() -> Vec<(String, Value<R>)> {
 
 fn library_map_result<R: RealNumberInternalTrait>() -> Result<Vec<(String, Value<R>)>> {
     Ok(vec![
-        function_mapping!(
-            "apply",
-            append_variadic_param!(param_fixed!["proc"], "args"),
-            apply
+        (
+            "apply".to_owned(),
+            Value::Procedure(Procedure::new_builtin_tail_call(
+                "apply".to_owned(),
+                append_variadic_param!(param_fixed!["proc"], "args"),
+                apply,
+            )),
         ),
         pure_function_mapping!("car", param_fixed!["pair"], car),
         pure_function_mapping!("cdr", param_fixed!["pair"], cdr),
